@@ -609,3 +609,99 @@ def run_sig_all(prog, tier, repo):
             res.ok(key, b.loc(), 'signature map = ' + ' <- '.join(c for c, _ in chain) + ' over all sources')
     res.floor('from-scratch signature builders', n, 1)
     return [res]
+
+
+# ---------------------------------------------------------------------------------------------------------------------
+# AFFECTED-CLOSURE (C10): the set of modules rechecked after a change. `recheck` replaces the stored diagnostics of every
+# module in the set by what that round produced for it, and checking a module can produce diagnostics located in a module it
+# imports. The set therefore has to contain (a) every module that transitively imports a changed module - they see the changed
+# signatures - and (b) every module that one of those transitively imports - their stored diagnostics are rewritten by the round.
+# In terms of the dependency graph: affected = closure over the import edges of (closure over the imported-by edges of the dirty
+# set). The rule follows the value returned by the graph's query back through the two closure calls.
+
+def run_affected_closure(prog, tier, repo):
+    from ..facts import strip_refs
+    res = RuleResult('AFFECTED-CLOSURE', 'C10: the recheck set is the import closure of the importer closure of the changed modules '
+                     '(forward over reverse, both transitive)')
+    mod = 'samlang_services::dep_graph::'
+    bodies = [b for b in prog.bodies.values() if b.name.startswith(mod) and '::tests' not in b.name and b.kind != 'closure']
+    dg = [a for a in prog.adts.values() if a.name == 'samlang_services::dep_graph::DependencyGraph']
+    if len(dg) != 1:
+        res.cannot_decide('samlang_services::dep_graph::DependencyGraph')
+        return [res]
+    dg = dg[0]
+    map_fields = [f.name for f in dg.variants[0].fields if 'HashMap' in f.ty.s and 'HashSet' in f.ty.s]
+    if len(map_fields) != 2:
+        res.cannot_decide(f'the two edge maps of DependencyGraph (found {map_fields})')
+        return [res]
+
+    def is_set(t):
+        t = strip_refs(t)
+        return t.k == 'adt' and t.name.startswith('std::collections::HashSet') and 'ModuleReference' in t.s
+    # the closure function: (&edge map, seed set) -> set, with a loop
+    closure_fns = {b.id for b in bodies if b.nargs == 2 and 'HashMap' in strip_refs(b.locals[1]).s and is_set(b.locals[2])
+                   and is_set(b.locals[0]) and cfg_of(b).back_edges()}
+    query = [b for b in bodies if b.self_ty is not None and strip_refs(b.self_ty).k == 'adt' and strip_refs(b.self_ty).id == dg.id
+             and b.nargs == 2 and is_set(b.locals[2]) and is_set(b.locals[0])]
+    if len(closure_fns) != 1 or len(query) != 1:
+        res.cannot_decide(f'the closure function / the affected-set query of the dependency graph (found {len(closure_fns)} / {len(query)})')
+        return [res]
+    q = query[0]
+    # which map holds the imported-by edges: the one `new` fills under the key `import.imported_module`
+    reverse = None
+    for b in bodies:
+        if not (strip_refs(b.locals[0]).k == 'adt' and strip_refs(b.locals[0]).id == dg.id):
+            continue
+        for bl in b.blocks:
+            t = bl.term
+            if bl.cleanup or t[0] != 'call' or len(t[3]) < 2 or (callee(t)[1] or '').split('::')[-1] not in ('insert', 'get_mut', 'entry'):
+                continue
+            r0, p0 = operand_root(b, t[3][0])
+            f0 = [e[4] for e in p0 if e[0] == 'f' and e[4] in map_fields]
+            r1, p1 = operand_root(b, t[3][1])
+            if f0 and any(e[0] == 'f' and e[4] == 'imported_module' for e in tuple(p1) + (tuple(t[3][1][1].proj) if t[3][1][0] in ('c', 'm') else ())):
+                reverse = f0[-1]
+    if reverse is None:
+        res.cannot_decide('which edge map is keyed by the imported module (the imported-by edges)')
+        return [res]
+    forward = [f for f in map_fields if f != reverse][0]
+
+    def closure_call(local):
+        """(edge map field, seed local) if `local` is the result of the closure function"""
+        r, _ = root_local(q, local)
+        sd = single_def(q, r)
+        if not (sd and sd[1] == 'term' and callee(sd[2])[0] in closure_fns and len(sd[2][3]) == 2):
+            return None
+        t = sd[2]
+        _r0, p0 = operand_root(q, t[3][0])
+        f0 = [e[4] for e in p0 if e[0] == 'f' and e[4] in map_fields]
+        seed = t[3][1][1].local if t[3][1][0] in ('c', 'm') else None
+        return (f0[-1] if f0 else None, seed, t[7])
+    outer = closure_call(0)
+    key = f'query:{q.name}'
+    if outer is None:
+        res.violation(key, q.loc(), f'{q.name} does not return the result of the closure function: the recheck set is not closed under '
+                      f'the import edges, so stored diagnostics of a dependency of a rechecked module are overwritten by a round that did '
+                      f'not check that dependency')
+        return [res]
+    inner = closure_call(outer[1]) if outer[1] is not None else None
+    problems = []
+    if outer[0] != forward:
+        problems.append(f'the outer closure runs over `{outer[0]}`, not over the import edges `{forward}`')
+    if inner is None:
+        problems.append('the seed of the outer closure is not itself a closure: importers of importers of a changed module are not rechecked')
+    else:
+        if inner[0] != reverse:
+            problems.append(f'the inner closure runs over `{inner[0]}`, not over the imported-by edges `{reverse}`')
+        r_seed, _ = root_local(q, inner[1]) if inner[1] is not None else (None, ())
+        sdc = single_def(q, r_seed) if r_seed is not None else None
+        if sdc and sdc[1] == 'term' and (callee(sdc[2])[1] or '').split('::')[-1] == 'clone' and sdc[2][3] and sdc[2][3][0][0] in ('c', 'm'):
+            r_seed, _ = root_local(q, sdc[2][3][0][1].local)
+        if r_seed != 2:
+            problems.append('the inner closure does not start from the set of changed modules')
+    if problems:
+        res.violation(key, q.loc(outer[2]), f'{q.name}: ' + '; '.join(problems) + ' - after an edit some module whose diagnostics can change '
+                      f'(a transitive importer, or a module whose stored diagnostics the round rewrites) is left with stale diagnostics')
+    else:
+        res.ok(key, q.loc(outer[2]), f'closure over `{forward}` of the closure over `{reverse}` of the changed set')
+    return [res]
